@@ -102,7 +102,7 @@ fn compare(cfg: &Cfg, full: &[Op], suffix: &[Op], a: &Out, b: &Out, out: &mut Jo
                 match cfg.kind {
                     Kind::Cci => r.cond = m / r.den,
                     Kind::Mfi => {
-                        let rf = reference(cfg, full);
+                        let rf = reference(cfg, since_reset(full));
                         r.cond = rf.maxflow.max(r.maxflow) / r.den.abs();
                         // largest flow anywhere in the history
                         let mut mf = 0.0f64;
@@ -177,7 +177,8 @@ pub fn run(ctx: &Ctx) -> CheckResult {
         let mut prefixes: Vec<Vec<u8>> = vec![];
         let (base, pre_vals): (&[f64], &[f64]) = if *hl { (&base_hl, &pre_hl) } else { (&base_lo, &pre_lo) };
         let dpk = if (cfg.kind == Kind::Mfi && ctx.tier_thorough && cfg.p[0] <= 2) || *hl { dp + 1 } else { dp };
-        for_each_seq(pre_vals.len(), None, dpk, |s| {
+        // one extra symbol (index pre_vals.len()) stands for reset(): "any history" includes re-use
+        for_each_seq(pre_vals.len() + 1, None, dpk, |s| {
             prefixes.push(s.to_vec());
             true
         });
@@ -219,9 +220,12 @@ pub fn run(ctx: &Ctx) -> CheckResult {
                 // negative prices make no sense for bar kinds and ratio kinds: use magnitudes there
                 full.clear();
                 if cfg.kind == Kind::Mfi {
-                    full.extend(p.iter().map(|&a| Op::B(mfi_pre[a as usize % mfi_pre.len()])));
+                    full.extend(p.iter().map(|&a| if a as usize == pre_vals.len() { Op::Reset } else { Op::B(mfi_pre[a as usize % mfi_pre.len()]) }));
                 } else {
                 full.extend(p.iter().enumerate().map(|(i, &a)| {
+                    if a as usize == pre_vals.len() {
+                        return Op::Reset;
+                    }
                     let x = pre_vals[a as usize];
                     let x = if matches!(cfg.kind, Kind::Roc | Kind::Er) { x.abs() } else { x };
                     to_op(cfg.kind, x, i + 1)
@@ -324,7 +328,7 @@ pub fn run(ctx: &Ctx) -> CheckResult {
         res.absorb(merge_jobs(outs));
     }
     res.extra.insert("configurations".into(), json!(cfgs.len()));
-    res.rule = "case = (configuration, prefix, suffix): the real output after prefix+suffix is compared with a fresh real instance fed only the suffix (length n or n+1, and up to 2 more): == for MIN/MAX/FAST_STOCH, tau(t)*M with t and M of the whole history for the accumulating ones (SD and Bollinger half-widths as variances, ratios times their condition number, gated at 1e6); a differential oracle with no hand-written expected values; non-trivial = non-empty prefix".into();
+    res.rule = "case = (configuration, prefix, suffix): the real output after prefix+suffix is compared with a fresh real instance fed only the suffix (length n or n+1, and up to 2 more): == for MIN/MAX/FAST_STOCH, tau(t)*M with t and M of the whole history for the accumulating ones (SD and Bollinger half-widths as variances, ratios times their condition number, gated at 1e6); a differential oracle with no hand-written expected values; prefixes may contain reset(); non-trivial = non-empty prefix".into();
     res.bounds = format!("SMA, WMA, SD, MAD, MIN, MAX, FAST_STOCH, BB, CCI (suffix n) and ROC, ER, MFI (suffix n+1), periods 1..4; every prefix over {{1,4,7,1e6,7e6,-3e6,2e3,1e9,3.7e10}} up to depth {dp}; every suffix over {{1,2,4,7}} of length w..w+{extra}; larger periods (up to 64/257): 3 suffix patterns of length w..w+2 after spike-laden prefixes of 7 lengths");
     res
 }
